@@ -87,7 +87,7 @@ func addSubstProcs(r rng, p *sdl.Program) {
 				if at == sdl.CbBeforeInst && action == "substitute" && len(p.Instances) >= 2 && r.p(0.4) {
 					// the hook first looks another component up, then answers with its substitute
 					if b := pick(r, p.Instances); b.ID != tgt.ID {
-						pr.Rules = append(pr.Rules, &sdl.Rule{Target: tgt.ID, At: sdl.CbBeforeInst, Action: "lookup", Sub: b.ID})
+						pr.Rules = append(pr.Rules, &sdl.Rule{Target: tgt.ID, At: sdl.CbBeforeInst, Action: "lookup", Sub: b.ID, Tolerant: r.p(0.4)})
 					}
 				}
 			}
@@ -98,11 +98,57 @@ func addSubstProcs(r rng, p *sdl.Program) {
 			a := pick(r, p.Instances)
 			b := pick(r, p.Instances)
 			if a.ID != b.ID {
-				pr.Rules = append(pr.Rules, &sdl.Rule{Target: a.ID, At: pick(r, []string{sdl.CbAfterInst, sdl.CbAfterInst, sdl.CbProps, sdl.CbBefore, sdl.CbBeforeInst}), Action: "lookup", Sub: b.ID})
+				pr.Rules = append(pr.Rules, &sdl.Rule{Target: a.ID, At: pick(r, []string{sdl.CbAfterInst, sdl.CbAfterInst, sdl.CbProps, sdl.CbBefore, sdl.CbBeforeInst}), Action: "lookup", Sub: b.ID, Tolerant: r.p(0.4)})
 				pr.Props = true
 			}
 		}
 		p.Procs = append(p.Procs, pr)
+	}
+	// look-ups from a before-instantiation hook preferably lead back to the component that is
+	// being instantiated: its partner on a dependency cycle is looked up
+	{
+		w := model.NewWorld(p, nil)
+		out := w.StartOutcome()
+		needs := map[string]map[string]bool{}
+		for _, i := range p.Instances {
+			needs[i.ID] = w.Needs(out, i.ID)
+		}
+		for _, pr := range p.Procs {
+			for _, ru := range pr.Rules {
+				if ru.Action != "lookup" || ru.At != sdl.CbBeforeInst || !r.p(0.7) {
+					continue
+				}
+				var partners []string
+				for _, b := range p.Instances {
+					if b.ID != ru.Target && needs[b.ID][ru.Target] && needs[ru.Target][b.ID] {
+						partners = append(partners, b.ID)
+					}
+				}
+				if len(partners) != 0 {
+					ru.Sub = pick(r, partners)
+				}
+			}
+		}
+		// ... and a share of the programs gets such a hook on purpose, half of them coping with
+		// the refusal
+		if r.p(0.2) {
+			var pairs [][2]string
+			for _, a := range p.Instances {
+				for _, b := range p.Instances {
+					if a.ID != b.ID && needs[a.ID][b.ID] && needs[b.ID][a.ID] {
+						pairs = append(pairs, [2]string{a.ID, b.ID})
+					}
+				}
+			}
+			for _, pr := range p.Procs {
+				if pr.Class != "plain" && len(pairs) != 0 {
+					ab := pick(r, pairs)
+					pr.Rules = append(pr.Rules, &sdl.Rule{Target: ab[0], At: sdl.CbBeforeInst, Action: "lookup", Sub: ab[1], Tolerant: r.p(0.5)})
+					pr.Props = true
+					break
+				}
+			}
+		}
 	}
 	// a substituted component and one of its holders carry names that differ in capitalisation
 	// only (the order in which the two are created must still be a fixed one)
